@@ -49,6 +49,12 @@ def decythonise(src, name="<pyx>"):
 
     def fix_header(m):
         indent, fname, args = m.group(1), m.group(2), m.group(3)
+        # remember the C types of scalar arguments: Cython converts them on entry (a copy), see _convert_args
+        sig = []
+        for a in re.split(r",(?![^\[]*\])", args):
+            mm = re.match(r"^\s*(?:unsigned\s+)?(double|float|int|long|bint|Py_ssize_t)\s+(\w+)\s*(?:=.*)?$", a.strip(), re.S)
+            sig.append(mm.group(1) if mm else None)
+        SIGS.setdefault(name, {})[fname] = sig
         new_args = []
         for a in re.split(r",(?![^\[]*\])", args):      # commas inside double[:, :] do not separate
             a = a.strip()
@@ -87,6 +93,38 @@ def decythonise(src, name="<pyx>"):
     if re.search(r"^\s*c(p)?def\b", res, re.M):
         raise DecythonError("%s: residual cdef" % name)
     return res
+
+
+SIGS = {}      # module name -> function name -> C type of each positional argument (None = object / memoryview)
+
+
+def _conv(ctype):
+    def keep_exact(v, f):
+        # exact mode hands exact numbers (harness/exact.py) through: they stand for C doubles
+        return v if type(v).__name__ == "Ex" else f(v)
+    if ctype in ("double", "float"):
+        return lambda v: keep_exact(v, float)
+    if ctype == "bint":
+        return lambda v: bool(v)
+    return lambda v: keep_exact(v, int)
+
+
+def _convert_args(f, sig):
+    """Cython converts an argument declared `double x` / `int n` / `bint flag` to a C value on entry: the callee
+    works on a copy of type double / long / int whatever Python object was passed"""
+    convs = [(i, _conv(c)) for i, c in enumerate(sig) if c]
+    if not convs:
+        return f
+
+    def g(*args, **kw):
+        args = list(args)
+        for i, c in convs:
+            if i < len(args):
+                args[i] = c(args[i])
+        return f(*args, **kw)
+    g.__name__ = f.__name__
+    g.__doc__ = f.__doc__
+    return g
 
 
 PYX = ["cython_get_tau", "cython_profiles", "cython_distances", "cython_add",
@@ -220,6 +258,9 @@ def install_cython(repo=REPO):
         tree = _Bounds(views).visit(_CDiv().visit(ast.parse(code, path)))
         ast.fix_missing_locations(tree)
         exec(compile(tree, path, "exec"), mod.__dict__)
+        for fname, sig in SIGS.get(name, {}).items():
+            if callable(mod.__dict__.get(fname)):
+                mod.__dict__[fname] = _convert_args(mod.__dict__[fname], sig)
         sys.modules["pyspike.cython." + name] = mod
         setattr(sys.modules["pyspike.cython"], name, mod)
         mods[name] = mod
